@@ -28,6 +28,7 @@ r3 = [m for m in metas if m["seed"][-1] in "EF"]
 r4 = [m for m in metas if m["seed"][-1] in "GH"]
 r5 = [m for m in metas if m["seed"][-1] in "IJ"]
 r6 = [m for m in metas if m["seed"][-1] in "KL"]
+r7 = [m for m in metas if m["seed"][-1] in "MN"]
 out = []
 out.append("""# Independently seeded property-breaking changes
 
@@ -39,8 +40,8 @@ demonstration (`demo_test.go.txt`; rename and place as its header says),
 check against that copy; `tools/seedconfirm.sh` re-confirms build / suite /
 demo in the author's scratch worktree; `tools/seedsweep.sh` re-runs them all.
 
-Round 1 (`-A`, `-B`): two changes per property.  Rounds 2 to 6 (`-C`/`-D`,
-`-E`/`-F`, `-G`/`-H`, `-I`/`-J`, `-K`/`-L`): two more per property each, by new agents that were told in one line
+Round 1 (`-A`, `-B`): two changes per property.  Rounds 2 to 7 (`-C`/`-D`,
+`-E`/`-F`, `-G`/`-H`, `-I`/`-J`, `-K`/`-L`, `-M`/`-N`): two more per property each, by new agents that were told in one line
 each what the earlier changes were, so that they would pick other mechanisms and
 code sites.
 """)
@@ -60,6 +61,9 @@ if r5:
 if r6:
     out.append("Round 6: caught at the first attempt %d of %d; caught now %d of %d." % (
         sum(1 for m in r6 if first(m)), len(r6), sum(1 for m in r6 if now(m)), len(r6)))
+if r7:
+    out.append("Round 7: caught at the first attempt %d of %d; caught now %d of %d (the session ended before the misses of this round were all worked through; each row says where it stands)." % (
+        sum(1 for m in r7 if first(m)), len(r7), sum(1 for m in r7 if now(m)), len(r7)))
 out.append("""
 (C12-B only on the pre-fix tree: a later repair rewrote the same condition.)
 The seeding agents also pointed at defects that already existed in /repo: the
@@ -70,7 +74,10 @@ then reproduced by a strengthened check and repaired (f67a249, 4f8004a, 566037a,
 35f0693) or recorded as a known finding (C10 anonymous-validator-name).  Round 6
 added: tokens larger than the scanner window cut in two (3487844), a collapsed
 tail call resolving a symbol designator in the wrong package (0b8989f), and three
-builtins answering internal-panic (30b7ae7, 852e4ed, 7d761c8).
+builtins answering internal-panic (30b7ae7, 852e4ed, 7d761c8).  Round 7 (checks
+rebuilt after an interruption) added three error-location repairs (6a0448a + a57b9a6,
+7516df2, 875babc) and two known findings (C18 eval of a position-less symbol, C03
+regexp pattern x text).
 
 | seed | change | needs | result |
 |---|---|---|---|""")
